@@ -40,20 +40,44 @@ THEOREMS = [
      "w_body part = firstn (N.to_nat (N.min c (w_content_length full - 1) - a + 1)) (skipn (N.to_nat a) (w_body full)) /\\ "
      "w_content_length part = N.of_nat (length (w_body part))"),
 ]
-RULE = ("direct calls of kvarn_utils::parse::sanitize_request + CriticalRequestComponents::apply_to_response (both arithmetic "
+RULE = ("(1) direct calls of kvarn_utils::parse::sanitize_request + CriticalRequestComponents::apply_to_response (both arithmetic "
         "profiles: overflow checks on / off) against the Coq model (correspondence) and the Coq specification (oracle). "
         "Exhaustive: body lengths 0..12 x all (a,b) in 0..14; boundary values around 2^32, 2^63, 2^64 for a and b; syntactic variants "
         "(units, lists, suffix/open ranges, signs, spaces, leading zeros, non-ASCII); seeded random mutations of valid headers. "
-        "distinct_nontrivial counts distinct (input, model outcome class) pairs whose model outcome is 206 or 416, or a 200 caused by a "
-        "non-empty rejected header")
+        "(2) request histories on ONE loopback TCP connection through kvarn::handle_connection -> handle_cache -> SendKind::send "
+        "(component range.conn, raw HTTP/1.1 client, framed reads, a sentinel request after each history checks that a HEAD reply "
+        "had no body): pages = {handler page: response cache on/off x ServerCachePreference Full/None x compression on/off, file "
+        "read from the file system} x body lengths {0,1,2,10,60} (thorough: + 3,49,50,51,200,5000) x Accept-Encoding {absent, gzip, "
+        "identity}; histories = {cold, warmed by GET, by HEAD, by a ranged GET, by an unsatisfiable GET, by a GET with another "
+        "Accept-Encoding} x {GET, HEAD} x Range values around the length of the ENCODED representation (a>b, a=len, a=len+1, b>=len, "
+        "u64::MAX, 2^64, single bytes, open/suffix forms, the syntactic variants that travel unchanged through a header line), plus long "
+        "mixed histories and tilings of the encoded representation. Each reply (status, content-range, content-length, "
+        "content-encoding, accept-ranges, body bytes received) is compared with the Coq connection model (correspondence) and with the "
+        "Coq specification range_spec applied to the representation that a GET without Range receives under the same Accept-Encoding "
+        "(oracle; that representation is observed on the real code by component range.repr on a fresh host and must decode to the "
+        "page's body). distinct_nontrivial counts distinct (input, model outcome class) pairs whose model outcome is 206 or 416, or a "
+        "200 caused by a non-empty rejected header; for histories the class is the sequence of reply statuses")
 ASSUMPTIONS = [
-    "bodies fit in memory (length < 2^64), the theorem's only hypothesis",
+    "bodies fit in memory (length < 2^64), the theorems' only hypothesis on the data (page_fits)",
     "HeaderValue::to_str is modelled as 'every byte is visible ASCII or TAB' (http crate); header values the http crate refuses "
     "to construct are counted as out_of_domain",
-    "the pipeline above apply_to_response (which representation is ranged: the content-encoded body) is exercised by the loopback part "
-    "of the thorough tier and by C08/C03; the theorem is about the range arithmetic",
+    "connection level: the response cache entry of the URI is absent or holds this page's response (cache_ok: what handle_cache "
+    "stores; expiry/clearing only makes it absent again); one page per URI, handler status 200, no Prepare/Present/Package extension "
+    "rewrites the response, no If-Modified-Since header, no streaming body (future = None), HTTP/1.1 (content-length framing); "
+    "Range values with leading/trailing blanks or bytes that a header line cannot carry are left to the request parser's "
+    "property (out_of_domain here)",
+    "which bytes the compressor produces for a body is external: a page is given to the model as its list of representations "
+    "per Accept-Encoding class; the run takes them from the real code's own un-ranged replies (range.repr) and checks that they "
+    "decode to the page's body; the request without Range in the same history must receive exactly these bytes again",
 ]
-TRUSTED = ["modelled: utils/src/parse.rs sanitize_request (range closure, start/end test, end+1) and apply_to_response (non-stream branch)"]
+TRUSTED = ["modelled: utils/src/parse.rs sanitize_request (range closure, start/end test, end+1) and apply_to_response (non-stream branch)",
+           "modelled (Model/RangeConn.v): src/lib.rs handle_cache (sanitize_request once before the cache lookup, cache-hit guard "
+           "sanitize_data.is_ok() && GET|HEAD, miss path handler / sanitize_error_into_response, maybe_cache) and SendKind::send "
+           "(range applied to the content-encoded body, 416 short-circuit, ensure_length after slicing, no body for HEAD); "
+           "comprash::clone_preferred / the compressors are NOT modelled: the representation per Accept-Encoding class is an input of "
+           "the model and of the oracle, taken from the implementation's own reply to a GET without Range (harness component "
+           "range.repr) — the correspondence is relative to that observation",
+           "harness/src/c09conn.rs: raw HTTP/1.1 client (request text, response head parser, content-length framing, sentinel request)"]
 EXHAUSTIVE = False
 
 BIG = [2**32 - 1, 2**32, 2**32 + 1, 2**63 - 1, 2**63, 2**64 - 2, 2**64 - 1, 2**64, 2**64 + 1, 10**30]
@@ -109,6 +133,7 @@ def wire_safe(h):
 
 
 _REPR_CACHE = {}
+_PROBE_STATS = {"pages": 0, "fallback": 0}
 
 
 def probe_reprs(pages):
@@ -135,6 +160,8 @@ def probe_reprs(pages):
             # the run then reports the difference
             bd = p[1]
             reprs = [((b"identity" if bd else None), bd)] * 3
+            _PROBE_STATS["fallback"] += 1
+        _PROBE_STATS["pages"] += 1
         _REPR_CACHE[p] = reprs
     return {p: _REPR_CACHE[p] for p in pages}
 
@@ -313,6 +340,14 @@ def extra_oracle(c, i):
     return None
 
 
+def extra_coverage(cases, impl, model, spec):
+    conn = [c for c in cases if c.comp == "range.conn"]
+    return {"connection_histories": len(conn),
+            "connection_requests": sum(len(c.x[1][4][1]) for c in conn),
+            "pages_probed_for_their_unranged_representation": _PROBE_STATS["pages"],
+            "pages_whose_probe_failed_(identity_assumed)": _PROBE_STATS["fallback"]}
+
+
 def directed(rng, mismatches):
     # boundary sweep around every constant of the model, for both profiles
     cases = []
@@ -333,10 +368,20 @@ def directed(rng, mismatches):
 
 LEVEL_TEXT = ("Machine-checked Coq theorems over a byte-level model of the Range code path: the model equals the specification (206 slice, "
               "content-range text, 416 cases, everything else 200) for every body, every header value and both overflow modes; the "
-              "accepted header syntax is exactly bytes=<u64>-<u64>; tiling reconstructs the body. The model is tied to /repo on every run "
-              "by a differential run of the real sanitize_request/apply_to_response (debug and overflow-unchecked builds) against the "
-              "extracted model on an exhaustive small space + boundaries + syntactic variants.")
+              "accepted header syntax is exactly bytes=<u64>-<u64>; tiling reconstructs the body. On top of it a connection-level model "
+              "of handle_cache + SendKind::send (sanitize before the cache lookup, cache-hit guard, error page, storing, range on the "
+              "content-encoded representation, content-length of the slice, HEAD without body): for every page, every cache state "
+              "(absent / holding the page), every history of GET/HEAD requests and every Range value each reply is range_spec of the "
+              "representation a request without Range receives under the same Accept-Encoding (range_conn_correct), independent of the "
+              "history prefix and of the cache (range_history_independent); HEAD = GET's status and headers without body "
+              "(range_head_as_get); the 206 body is the slice of the un-ranged 200 body with the same content-encoding "
+              "(range_slice_of_unranged). Both models are tied to /repo on every run: direct calls of "
+              "sanitize_request/apply_to_response (debug and overflow-unchecked builds) on an exhaustive small space + boundaries + "
+              "syntactic variants, and request histories over loopback TCP through handle_connection (cold/warm caches, compressed "
+              "and identity representations, GET and HEAD), each reply checked against the extracted model and, independently, against "
+              "the Coq specification.")
 LEVEL_NOTE = ("Trusted: Coq kernel, extraction (ExtrOcamlBasic) reduced by an in-kernel recheck sample, the hand transcription of "
-              "utils/src/parse.rs into Model/Range.v as validated by the differential run, http::HeaderValue::to_str modelled as "
-              "visible-ASCII. No axioms.")
+              "utils/src/parse.rs into Model/Range.v and of handle_cache/send into Model/RangeConn.v as validated by the differential "
+              "runs, http::HeaderValue::to_str modelled as visible-ASCII, the compressed representation taken from the implementation's "
+              "own un-ranged reply (checked to decode to the body). No axioms.")
 TECHNIQUE = "Coq proof (model = spec for all inputs) + differential correspondence model vs. implementation"
